@@ -23,8 +23,8 @@ type bareTBS struct {
 	Validity        bareValidity
 	Subject         stdasn1.RawValue
 	SPKI            stdasn1.RawValue
-	IssuerUniqueID  stdasn1.BitString `asn1:"optional,tag:1"`
-	SubjectUniqueID stdasn1.BitString `asn1:"optional,tag:2"`
+	IssuerUniqueID  stdasn1.BitString  `asn1:"optional,tag:1"`
+	SubjectUniqueID stdasn1.BitString  `asn1:"optional,tag:2"`
 	Extensions      []stdasn1.RawValue `asn1:"optional,explicit,tag:3"`
 }
 
@@ -38,7 +38,7 @@ type bareCert struct {
 // v1-bare, v3-bare, v2-with-unique-ids, v3-ids-and-extensions; with and without NULL
 // parameters in the algorithm identifiers. Signatures are not valid (parsing does not verify).
 func bareDocs(donors []*x509.Certificate) (bare []doc, order []string) {
-	sigAbsent := stdasn1.RawValue{FullBytes: []byte{0x30, 0x0a, 0x06, 0x08, 0x2a, 0x86, 0x48, 0xce, 0x3d, 0x04, 0x03, 0x02}}                         // ecdsa-with-SHA256, no parameters
+	sigAbsent := stdasn1.RawValue{FullBytes: []byte{0x30, 0x0a, 0x06, 0x08, 0x2a, 0x86, 0x48, 0xce, 0x3d, 0x04, 0x03, 0x02}}                 // ecdsa-with-SHA256, no parameters
 	sigNull := stdasn1.RawValue{FullBytes: []byte{0x30, 0x0d, 0x06, 0x09, 0x2a, 0x86, 0x48, 0x86, 0xf7, 0x0d, 0x01, 0x01, 0x0b, 0x05, 0x00}} // sha256WithRSAEncryption, NULL
 	for di, d := range donors {
 		raw := func(b []byte) stdasn1.RawValue { return stdasn1.RawValue{FullBytes: b} }
